@@ -25,7 +25,10 @@ Rec(op, kem, bytes, kind, err, out, outn) ==
      out |-> out, outn |-> outn, pre |-> [seq |-> <<>>, ovf |-> FALSE], post |-> [seq |-> <<>>, ovf |-> FALSE],
      untouched |-> FALSE]
 
+\* (... and the lengths at which the hashed string "HPKE-v1" || "KEM" || id || "dkp_prk" || ikm, 19 bytes of header,
+\* reaches a multiple of 1024 .. 8192)
 IkmLens(kem) == {0, 1, Nsk(kem) - 1, Nsk(kem), Nsk(kem) + 1, 64, 65, 1000, 65535, 65536, 70000}
+                \cup {b * m - 20 + d : b \in {1024, 2048, 4096, 8192}, m \in {1, 2}, d \in {0, 1, 2}}
 \* Inputs whose FIRST candidate is >= the group order, so that DeriveKeyPair must go round the loop (RFC 9180
 \* 7.1.3; probability 2^-32 per input on P-256, found by exhaustive search, and far out of reach on P-384/P-521).
 \* The oracle confirms on every run that each of them really takes the rejection branch.
@@ -77,7 +80,21 @@ DecapCalls(kem) ==
         enc \in {EncOf(kem), KP("S", kem).pk} \cup (IF SmallOrder /\ kem = KEM_X25519
                                                      THEN {Lit(e) : e \in SmallOrderEncodings} ELSE {})}
 
-Calls == UNION {DeriveCalls(k) \cup GenCalls(k) \cup SkToPkCalls(k) \cup EncapCalls(k) \cup DecapCalls(k) : k \in KemSet}
+\* NIST curves, special VALUES: the scalars 1 and n-1 and valid points whose x-coordinate has leading zero bytes
+\* (x < 2^16; x < 2^(8(Ncoord-2))).  With them the DH output - the x-coordinate of sk * P - has leading zeros too
+\* (1 * P = P, (n-1) * P = -P): fixed-width encoding of Diffie-Hellman outputs, kem_context and the keys themselves.
+\* (The terms "mksk" / "mkxy" are the constructed inputs of MC_Codec.tla; the oracle builds them from the curve.)
+SpecialSk(kem) == {T(<<"mksk", kem, rc, 1>>, Nsk(kem)) : rc \in {"one", "two", "nminus1"}}
+SpecialPk(kem) == {Cat(Lit(<<4>>), T(<<"mkxy", kem, rc, i>>, 2 * Nsk(kem))) : rc \in {"smallx", "leadzero"}, i \in 1..2}
+SpecialCalls(kem) ==
+    IF kem \notin NistKems THEN {}
+    ELSE {Rec("sk_to_pk", kem, [sk |-> sk], "ok", "", [pk |-> PK(kem, sk)], EmptyF) : sk \in SpecialSk(kem)}
+         \cup {DecapRec(kem, sk, NoPk, enc) : sk \in SpecialSk(kem) \cup {KP("R", kem).sk}, enc \in SpecialPk(kem)}
+         \cup {DecapRec(kem, sk, SomePk(pkS), EncOf(kem)) : sk \in SpecialSk(kem), pkS \in SpecialPk(kem)}
+         \cup {EncapRec(kem, pkR, idS, RngOf("E", kem, 2)) :
+                  pkR \in SpecialPk(kem), idS \in {NoId} \cup {Id(sk, PK(kem, sk)) : sk \in SpecialSk(kem)}}
+
+Calls == UNION {DeriveCalls(k) \cup GenCalls(k) \cup SkToPkCalls(k) \cup EncapCalls(k) \cup DecapCalls(k) \cup SpecialCalls(k) : k \in KemSet}
 
 Init == last = [op |-> "init"]
 Next == \E c \in Calls : last' = c
